@@ -165,8 +165,11 @@ def run(ck, m):
         ck.ob("R2", m.get(CS, "Response"), nm_ in src, "response patterns must be compiled with re.ASCII", stmt="Response: compiled with re.ASCII")
     fg = m.variants(U, "get_fg_bg_colors")[-1]
     disp = {}
+    # (the reply-code variable: first element of the loop target over RGB_SPEC_re.findall(...))
+    lp_ = next((n for n in body_walk(fg) if isinstance(n, ast.For) and "RGB_SPEC_re.findall" in norm(n.iter) and isinstance(n.target, ast.Tuple) and n.target.elts and isinstance(n.target.elts[0], ast.Name)), None)
+    cv_ = lp_.target.elts[0].id if lp_ is not None else "c"
     for n in body_walk(fg):
-        if isinstance(n, ast.If) and isinstance(n.test, ast.Compare) and norm(n.test.left) == "c" and isinstance(n.test.comparators[0], ast.Constant):
+        if isinstance(n, ast.If) and isinstance(n.test, ast.Compare) and norm(n.test.left) == cv_ and isinstance(n.test.comparators[0], ast.Constant):
             tgt = next((norm(t) for s in n.body for t, _ in stores_in(s)), None)
             disp[n.test.comparators[0].value] = tgt
     ck.ob("R2", fg, disp == {"10": "fg", "11": "bg"}, f"colour replies must be dispatched 10 -> fg, 11 -> bg; found {disp}", stmt="get_fg_bg_colors: 10->fg, 11->bg")
@@ -185,15 +188,21 @@ def run(ck, m):
             branches[norm(n.value.func).split(".")[-2]] = (iff, norm(n.target))
     ck.expect(set(branches) == {"CELL_SIZE_PX_re", "TEXT_AREA_SIZE_PX_re"}, f"get_cell_size: reply-pattern branches recognised: {sorted(branches)}")
     want = {"CELL_SIZE_PX_re": "cell_size", "TEXT_AREA_SIZE_PX_re": "text_area_size"}
+    # a local that is later copied into cell_size / text_area_size (`cell_size = <local>`) stands for it
+    alias = {}
+    for n in body_walk(gcs):
+        if isinstance(n, ast.Assign) and len(n.targets) == 1 and isinstance(n.targets[0], ast.Name) and n.targets[0].id in ("cell_size", "text_area_size") and isinstance(n.value, ast.Name) \
+                and n.value.id not in ("cell_size", "text_area_size"):
+            alias[n.value.id] = n.targets[0].id
     for pat_, (iff, mv) in branches.items():
-        stored = [st for s_ in iff.body for t, st in stores_in(s_) if isinstance(t, ast.Name) and t.id in ("cell_size", "text_area_size") and isinstance(st, ast.Assign)]
+        stored = [st for s_ in iff.body for t, st in stores_in(s_) if isinstance(t, ast.Name) and (t.id in ("cell_size", "text_area_size") or t.id in alias) and isinstance(st, ast.Assign)]
         # only what is derived from the matched reply counts (resetting the other variable to its "not obtained" constant is not a use of the reply)
         stored = [st for st in stored if any(isinstance(x, ast.Name) and x.id in (mv, "cell_size", "text_area_size") for x in ast.walk(trace(gcs, st.value))) and norm(st.value) != norm(st.targets[0])]
-        tgt = {norm(t) for st in stored for t in st.targets}
+        tgt = {alias.get(norm(t), norm(t)) for st in stored for t in st.targets}
         ck.ob("R2", iff, tgt == {want[pat_]}, f"the reply matched by {pat_} must feed `{want[pat_]}`; the branch stores {sorted(tgt)}", stmt=f"get_cell_size: {pat_} -> {want[pat_]}")
         # (height, width) -> (width, height): reversed exactly once
         verdict = None
-        first = next((st for st in stored if norm(st.targets[0]) == want[pat_]), None)
+        first = next((st for st in stored if alias.get(norm(st.targets[0]), norm(st.targets[0])) == want[pat_]), None)
         if first is not None:
             v = first.value
             if match_expr(f"tuple(map(int, {mv}.groups()))[::-1]", v) is not None:
@@ -237,7 +246,17 @@ def run(ck, m):
           f"the scale applied to a colour component must be computed from that component's own width inside the comprehension; it uses {sorted(outside) or lens}: with mixed-width components "
           "(rgb:f/ffff/f) a value exceeds 255", stmt="x_parse_color: per-component scale")
     e_ = comps[0].elt
-    okf = isinstance(e_, ast.BinOp) and isinstance(e_.op, ast.FloorDiv) and "* 255" in norm(e_.left) and f"len({var})" in norm(e_.right) and norm(e_.right).rstrip(")").endswith("- 1")
+    # value * 255 // (16**digits - 1): numerator as a polynomial over the opaque atom int(<component>, 16); denominator evaluated for 1..4 digits
+    okf = False
+    if isinstance(e_, ast.BinOp) and isinstance(e_.op, ast.FloorDiv):
+        from tiv import affine as _af
+        from tiv.absdom import EvUnk as _EvUnk, ev as _aev
+        try:
+            num_ok = _af.equal(e_.left, ast.parse(f"255 * int({var}, 16)", mode="eval").body)
+            den = ast.parse(norm(e_.right).replace(f"len({var})", "DIGITS"), mode="eval").body
+            okf = num_ok and all(_aev(den, {"DIGITS": d_}) == 16 ** d_ - 1 for d_ in (1, 2, 3, 4))
+        except (_af.NotPoly, _EvUnk, SyntaxError):
+            okf = False
     ck.ob("R3", comps[0], okf, "component must be scaled as value*255 // (16**digits - 1)", stmt="x_parse_color: scale formula")
 
     # ---- R4 ----------------------------------------------------------------------------
@@ -378,32 +397,26 @@ def run(ck, m):
     import itertools as _it
     VCHK = f"tuple(map(int, {VER}.split('.'))) >= (22, 4, 0)"
     for st in ist:
-        L = tconds(isup, st)
-        names_ok = any(b_ is not None and isinstance(b_["s"], ast.Set) and {norm(e) for e in b_["s"].elts} == {"'iterm2'", "'konsole'", "'wezterm'"}
-                       for b_ in (match_expr(f"{NAME} in $s", ast.parse(l_, mode="eval").body) for l_ in L))
-        # the version condition, decided on the truth table over (is konsole, version new enough, version parse failed)
-        vl = [l_ for l_ in L if "'konsole'" in l_ and not l_.startswith(f"{NAME} in ")]
+        # the whole situation (every traced conjunct except the memo test) as a predicate over (terminal name, version new enough,
+        # version parse failed), compared with: iterm2 or wezterm, or konsole with a parseable version >= 22.4.0
+        L = sorted(l_ for l_ in tconds(isup, st) if not l_.startswith("cls._supported is"))
+        src = " and ".join(f"({l_})" for l_ in L).replace(VCHK, "V").replace("__raised__(ValueError)", "R").replace(NAME, "N")
         verdict, wit = None, None
-        if len(vl) == 1:
-            src = vl[0].replace(f"{NAME} == 'konsole'", "K").replace(f"{NAME} != 'konsole'", "(not K)").replace(VCHK, "V").replace("__raised__(ValueError)", "R")
-            try:
-                e_ = ast.parse(src, mode="eval").body
-                verdict = True
-                for K_, V_, R_ in _it.product((True, False), repeat=3):
-                    if R_ and "R" not in {n_.id for n_ in ast.walk(e_) if isinstance(n_, ast.Name)}:
-                        continue
-                    got = bool(_aev(e_, {"K": K_, "V": V_, "R": R_}))
-                    want_ = (not K_) or (V_ and not R_)
-                    if got != want_ and wit is None:
-                        verdict, wit = False, (K_, V_, R_, got)
-            except (EvUnk, SyntaxError) as ex:
-                verdict = None
-                ck.expect(False, f"ITerm2Image.is_supported: version condition `{vl[0][:100]}` not evaluable ({ex})")
-        else:
-            ck.expect(False, f"ITerm2Image.is_supported: expected one condition on konsole, found {len(vl)}: {[x[:60] for x in vl]}")
+        try:
+            e_ = ast.parse(src, mode="eval").body
+            uses_r = any(isinstance(n_, ast.Name) and n_.id == "R" for n_ in ast.walk(e_))
+            verdict = True
+            for N_, V_, R_ in _it.product(("iterm2", "wezterm", "konsole", "xterm"), (True, False), ((True, False) if uses_r else (False,))):
+                got = bool(_aev(e_, {"N": N_, "V": V_, "R": R_}))
+                want_ = N_ in ("iterm2", "wezterm") or (N_ == "konsole" and V_ and not R_)
+                if got != want_ and wit is None:
+                    verdict, wit = False, (N_, V_, R_, got)
+        except (EvUnk, SyntaxError) as ex:
+            verdict = None
+            ck.expect(False, f"ITerm2Image.is_supported: support condition `{src[:120]}` not evaluable ({ex})")
         if verdict is not None:
-            ck.ob("R5", st, names_ok and verdict, f"iterm2 style is supported on iterm2, wezterm, or konsole >= 22.4.0; names condition {'ok' if names_ok else 'missing'}, version condition `{vl[0][:110]}`"
-                  + (f" gives {wit[3]} for konsole={wit[0]}, new enough={wit[1]}, parse failed={wit[2]}" if wit else ""), stmt="ITerm2Image.is_supported: rule")
+            ck.ob("R5", st, verdict, "iterm2 style is supported on iterm2, wezterm, or konsole >= 22.4.0; the condition found"
+                  + (f" gives {wit[3]} for terminal={wit[0]}, version new enough={wit[1]}, parse failed={wit[2]}" if wit else " agrees"), stmt="ITerm2Image.is_supported: rule")
     parses = [c for c in body_walk(isup) if isinstance(c, ast.Call) and ((call_name(c) or "") == "int" or ((call_name(c) or "") == "map" and c.args and norm(c.args[0]) == "int")) and "version" in norm(c)]
     ck.expect(len(parses) >= 1, "ITerm2Image.is_supported: the dotted-integer version parse not found")
     from tiv.sem import econds as _econds
